@@ -328,9 +328,28 @@ func (g *Graph) Guards(target Point) []Guard {
 			w.Run(g.Entry())
 			if !reach {
 				// vetoing edge `pol` disconnects target => edge pol is mandatory
-				out = append(out, Guard{c, pol == 0})
+				out = append(out, Atoms(c, pol == 0)...)
 			}
 		}
 	}
 	return out
+}
+
+// Atoms decomposes a condition known to evaluate to pol into the atomic
+// conditions it entails: (a && b)=true gives a, b; (a || b)=false gives !a, !b;
+// !x flips.  Disjunctive knowledge ((a||b)=true) is kept as one atom.
+// go/cfg does not split short-circuit operators, so this is done here.
+func Atoms(e ast.Expr, pol bool) []Guard {
+	e = ast.Unparen(e)
+	switch x := e.(type) {
+	case *ast.UnaryExpr:
+		if x.Op == token.NOT {
+			return Atoms(x.X, !pol)
+		}
+	case *ast.BinaryExpr:
+		if (x.Op == token.LAND && pol) || (x.Op == token.LOR && !pol) {
+			return append(Atoms(x.X, pol), Atoms(x.Y, pol)...)
+		}
+	}
+	return []Guard{{e, pol}}
 }
